@@ -31,7 +31,7 @@ ASSUMPTIONS = [
     "whose determinant sign differs from the sign of a*d, is known finding KF-ROUNDSHAPE-TRANSFORMED (pinned by "
     "test_paths.py::test_issue_mk_1362); the other observations of the same shape stay in scope",
 ]
-TOLERANCES = {"point": "1e-9 * S(image)", "arc point": "(1e-9 + 1e-15 * (ratio * cond)^2) * S(image)"}
+TOLERANCES = {"point": "1e-9 * S(image)", "arc point": "(1e-9 + 1e-15 * (ratio * cond)^2) * S(image) + closure_gap(arc) * 2|M| * ratio * cond (closure gap: how far the arc misses its own stored end points, non-zero for scaled-up radii)"}
 KINDS = ["L", "Q", "C", "A"]
 MANDATORY_LABELS = {"quick": ["seg:%s x %s" % (k, m) for k in KINDS for m in gen.MATRIX_CLASSES] + ["shape:%s" % s for s in ("rect", "rrect", "circle", "ellipse", "line", "polyline", "polygon")] + ["path:prog", "path:parse", "path:subpath"]}
 MANDATORY_LABELS["thorough"] = MANDATORY_LABELS["quick"]
@@ -122,6 +122,18 @@ def arc_ratio(seg):
     return max(rx, ry) / min(rx, ry)
 
 
+def closure_gap(seg):
+    """how far the arc's computed curve misses its own stored end points (the library snaps t=0 and t=1 to them);
+    capped: a large gap is C05's subject, not a bounding box matter"""
+    if lib.kind_of(seg) != "A" or abs(seg.sweep) < 1e-12:
+        return 0.0
+    a, b = lib.xy(seg.point(1e-12)), lib.xy(seg.point(1.0 - 1e-12))
+    s, e = lib.xy(seg.start), lib.xy(seg.end)
+    g = max(abs(a[0] - s[0]), abs(a[1] - s[1]), abs(b[0] - e[0]), abs(b[1] - e[1]))
+    S = max(1e-3, abs(s[0]), abs(s[1]), abs(e[0]), abs(e[1]), seg.rx, seg.ry)
+    return min(g * 2.0, 1e-6 * S)
+
+
 def compare_seg(o, orig, image, M, what, S=None):
     """image.point(t) must be M(orig.point(t)); stored points too.  Returns an Outcome or None."""
     k = lib.kind_of(orig)
@@ -144,6 +156,9 @@ def compare_seg(o, orig, image, M, what, S=None):
         amp = arc_ratio(orig) * cond(M)
         Simg = max(Simg, max(orig.rx, orig.ry) * gen.mat_norm(M) * 2.0)
         tol = (1e-9 + 1e-15 * amp * amp) * Simg
+        # an arc whose stored end points miss its own ellipse (scaled-up radii: the centre is the square root of rounding
+        # noise) takes its start angle from an off-ellipse point, and that projection does not commute with affine maps
+        tol += closure_gap(orig) * max(1.0, gen.mat_norm(M) * 2.0) * max(1.0, amp)
     for t, w, q in mapped:
         if not core.pclose(w, q, tol):
             return o.violation("%s:point:%s" % (what, k), "t=%r: image %r, matrix applied to the original point gives %r (tolerance %.3g)" % (t, q, w, tol))
